@@ -84,6 +84,7 @@ fn main() {
         "C06" => run_property(props::c06::C06, args),
         "C07" => run_property(props::c07::C07, args),
         "C08" => run_property(props::c08::C08, args),
+        "C09" => run_property(props::c09::C09, args),
         "C11" => run_property(props::c11::C11, args),
         "C12" => run_property(props::c12::C12, args),
         "C15" => run_property(props::c15::C15, args),
